@@ -52,7 +52,8 @@ LOCAL = {
                         {})),
 }
 H.ST.update(LOCAL)
-STS = {"quick": ["mie", "mie2", "ms3t", "ms3a", "auto-dimer", "tm-spheroid", "mielens",
+STS = {"quick": ["mie", "mie2", "ms3t", "ms3a", "auto-dimer", "tm-spheroid",
+                 "tm-sphere", "mielens",
                  "mielens-below", "lens-mie", "lens-mie-uneq", "abmielens",
                  "layered"],
        "thorough": ["mie", "mie-far", "layered", "mie2", "ms3t", "ms3a",
@@ -81,6 +82,13 @@ def cases(tier, seed):
                         "st": st, "d": list(d)})
         if not st.startswith("tm-"):
             for ang in ROT[tier]:
+                out.append({"id": "rot:%s:%g" % (st, ang), "kind": "rot",
+                            "st": st, "ang": ang})
+        else:
+            # the T-matrix front end only accepts x polarization; the two
+            # rotations that map (1, 0) onto (+-1, 0) must either be refused
+            # or give the rotated result
+            for ang in (180.0, 360.0):
                 out.append({"id": "rot:%s:%g" % (st, ang), "kind": "rot",
                             "st": st, "ang": ang})
         out.append({"id": "mirror:%s" % st, "kind": "mirror", "st": st})
@@ -160,6 +168,15 @@ def _rotate_spec(sspec, R, pivot, psi):
         return (kind, sspec[1], sspec[2], rc(sspec[3]))
     if kind == "spheres":
         return (kind, [(n, r, rc(c)) for n, r, c in sspec[1]])
+    # Euler angles (alpha, beta, gamma) stand for Rz(gamma) Ry(beta)
+    # Rz(alpha): a further rotation about z adds to gamma
+    if kind == "spheroid":
+        a, b, g = sspec[3]
+        return (kind, sspec[1], sspec[2], (a, b, g + psi), rc(sspec[4]))
+    if kind == "cylinder":
+        a, b, g = sspec[4]
+        return (kind, sspec[1], sspec[2], sspec[3], (a, b, g + psi),
+                rc(sspec[5]))
     raise ValueError(kind)
 
 
@@ -169,15 +186,21 @@ def _run_rot(case, ck):
     R = _rotz(psi)
     sspec, tspec = H.ST[st]
     tol = 1e-4 if _is_ms(st) else 1e-9
+    tm = st.startswith("tm-")
+    if tm:
+        tol = 1e-7
     fps = []
     s0 = H.mk_scatterer(sspec)
     axis = np.asarray(s0.center, float).copy()
     axis[2] = 0.0
     for pivname, pivot in (("axis", axis),
                            ("off", np.array([0.7, -0.4, 0.0]))):
-        for pa in POLANG:
+        for pa in ([0.0] if tm else POLANG):
             pol0 = _pol_for(st, pa)
             pol1 = _pol_for(st, pa + ang)
+            if tm:
+                pol0 = (1.0, 0.0)
+                pol1 = (-1.0, 0.0) if ang == 180.0 else (1.0, 0.0)
             det0 = H.det_points(BASE_PTS)
             P1 = pivot + (BASE_PTS - pivot) @ R.T
             det1 = H.det_points(P1)
